@@ -10,6 +10,10 @@
 //! Implementation-only oracles:
 //!   gffdir key kind payload      directive write/read
 //!   bedt   n ... typed other fields (Int64/UInt64/Float64/Character)
+//!   bedfile n rec rec ...        multi-line BED file with mixed column counts read into ONE reused
+//!                                Record<N> and into fresh ones (rec = bed fields joined by ' ')
+//!   gfffile rec rec ... / gtffile rec rec ...   multi-line files (blank lines, comments, directives
+//!                                in between) read with one reused Line and with record_bufs()
 //!
 //! Field encodings: byte strings hex ("_" empty); score "." or "<f32 bits>:<hex of Display text>";
 //! strand one of . + - ?; phase one of . 0 1 2; attrs "-" (none) or entries joined by ';', an
@@ -1241,6 +1245,153 @@ fn run_bed(c: &Case, modelled: bool) -> Obs {
     }
 }
 
+
+// ---------------------------------------------------------------------------------------------
+// Multi-line GFF3 / GTF files read with ONE reused Line object (reader.read_line(&mut line)) and
+// with the owning iterators; every record line is compared with what was written.
+
+fn recs_of_file_case(c: &Case) -> Vec<Rec> {
+    c.args
+        .iter()
+        .map(|a| rec_of_case(&Case::new("x", "gff", a.split(' ').map(|x| x.to_string()).collect())))
+        .collect()
+}
+
+fn file_verdict(fmtname: &str, want: &[String], reused: &[(String, String)], fresh: &[String], bytes: &[u8]) -> Obs {
+    let o = Obs::ok("-", true);
+    let check_pairs = |got: &[(String, String)]| -> Option<String> {
+        if got.len() != want.len() {
+            return Some(format!("{} records read, {} written", got.len(), want.len()));
+        }
+        for (i, ((lazy, owned), w)) in got.iter().zip(want).enumerate() {
+            if &norm_canon(lazy) != w {
+                return Some(format!("record {i}: lazy want={w} got={lazy}"));
+            }
+            if &norm_canon(owned) != w {
+                return Some(format!("record {i}: owned want={w} got={owned}"));
+            }
+        }
+        None
+    };
+    let fresh_pairs: Vec<(String, String)> = fresh.iter().map(|x| (x.clone(), x.clone())).collect();
+    match (check_pairs(&fresh_pairs), check_pairs(reused)) {
+        (None, None) => o,
+        (None, Some(d)) => o.with_verdict(Err((format!("{fmtname}-reused-line-stale-fields"), format!("{d} file={}", hex(bytes))))),
+        (Some(d), _) => o.with_verdict(Err((format!("{fmtname}-file-roundtrip"), format!("{d} file={}", hex(bytes))))),
+    }
+}
+
+fn run_gfffile(c: &Case) -> Obs {
+    let rs = recs_of_file_case(c);
+    let bufs: Vec<RecordBuf> = rs.iter().map(build_gff).collect();
+    let res = guarded(AssertUnwindSafe(move || -> io::Result<(Vec<u8>, Vec<(String, String)>, Vec<String>)> {
+        let mut w = gff::io::Writer::new(Vec::new());
+        w.write_directive(&gff::DirectiveBuf::new("gff-version", Some(directive_buf::Value::String("3".into()))))?;
+        for (i, b) in bufs.iter().enumerate() {
+            w.write_record(b)?;
+            // blank lines, comments and directives between records
+            match i % 4 {
+                1 => w.get_mut().extend_from_slice(b"\n"),
+                2 => w.get_mut().extend_from_slice(b"#a comment\twith\ttabs\t1\t2\t3\t4\t5\t6\n"),
+                3 => w.get_mut().extend_from_slice(b"###\n \t \n"),
+                _ => {}
+            }
+        }
+        let bytes = w.into_inner();
+        // one reused Line
+        let mut reader = gff::io::Reader::new(&bytes[..]);
+        let mut line = gff::Line::default();
+        let mut reused = Vec::new();
+        while reader.read_line(&mut line)? != 0 {
+            if let Some(r) = line.as_record() {
+                match r {
+                    Err(e) => reused.push((format!("Err:{}", errkind(&e)), format!("Err:{}", errkind(&e)))),
+                    Ok(rec) => {
+                        let lazy = canon_feature(&rec).0;
+                        let owned = match RecordBuf::try_from_feature_record(&rec) {
+                            Ok(buf) => canon_feature(&buf).0,
+                            Err(e) => format!("Err:{}", errkind(&e)),
+                        };
+                        reused.push((lazy, owned));
+                    }
+                }
+            }
+        }
+        // owning iterator
+        let mut reader = gff::io::Reader::new(&bytes[..]);
+        let fresh: Vec<String> = reader
+            .record_bufs()
+            .map(|r| match r {
+                Ok(buf) => canon_feature(&buf).0,
+                Err(e) => format!("Err:{}", errkind(&e)),
+            })
+            .collect();
+        Ok((bytes, reused, fresh))
+    }));
+    match res {
+        Outcome::Panicked(m) => Obs::fail("-", "gff3-file-panic", m),
+        Outcome::Done(Err(e)) => Obs::fail("-", "gff3-file-io-error", errkind(&e)),
+        Outcome::Done(Ok((bytes, reused, fresh))) => {
+            let want: Vec<String> = rs.iter().map(|r| norm_canon(&canon_input(r))).collect();
+            file_verdict("gff3", &want, &reused, &fresh, &bytes)
+        }
+    }
+}
+
+fn run_gtffile(c: &Case) -> Obs {
+    let rs = recs_of_file_case(c);
+    let bufs: Vec<RecordBuf> = rs.iter().map(build_gff).collect();
+    let res = guarded(AssertUnwindSafe(move || -> io::Result<(Vec<u8>, Vec<(String, String)>, Vec<String>)> {
+        let mut w = gtf::io::Writer::new(Vec::new());
+        for (i, b) in bufs.iter().enumerate() {
+            w.write_record(b)?;
+            if i % 3 == 1 {
+                w.get_mut().extend_from_slice(b"#a comment\twith\ttabs\t1\t2\t3\t4\t5\tk \"v\";\n");
+            }
+        }
+        let bytes = w.into_inner();
+        let mut reader = gtf::io::Reader::new(&bytes[..]);
+        let mut line = gtf::Line::default();
+        let mut reused = Vec::new();
+        while reader.read_line(&mut line)? != 0 {
+            if let Some(r) = line.as_record() {
+                match r {
+                    Err(e) => reused.push((format!("Err:{}", errkind(&e)), format!("Err:{}", errkind(&e)))),
+                    Ok(rec) => {
+                        let lazy = match rec.attributes() {
+                            Ok(_) => canon_feature(&rec).0,
+                            Err(e) => format!("Err:{}", errkind(&e)),
+                        };
+                        let owned = match guarded(AssertUnwindSafe(|| RecordBuf::try_from_feature_record(&rec))) {
+                            Outcome::Done(Ok(buf)) => canon_feature(&buf).0,
+                            Outcome::Done(Err(e)) => format!("Err:{}", errkind(&e)),
+                            Outcome::Panicked(_) => "Panic".to_string(),
+                        };
+                        reused.push((lazy, owned));
+                    }
+                }
+            }
+        }
+        let mut reader = gtf::io::Reader::new(&bytes[..]);
+        let fresh: Vec<String> = reader
+            .record_bufs()
+            .map(|r| match r {
+                Ok(buf) => canon_feature(&buf).0,
+                Err(e) => format!("Err:{}", errkind(&e)),
+            })
+            .collect();
+        Ok((bytes, reused, fresh))
+    }));
+    match res {
+        Outcome::Panicked(m) => Obs::fail("-", "gtf-file-panic", m),
+        Outcome::Done(Err(e)) => Obs::fail("-", "gtf-file-io-error", errkind(&e)),
+        Outcome::Done(Ok((bytes, reused, fresh))) => {
+            let want: Vec<String> = rs.iter().map(|r| norm_canon(&canon_input(r))).collect();
+            file_verdict("gtf", &want, &reused, &fresh, &bytes)
+        }
+    }
+}
+
 // ---------------------------------------------------------------------------------------------
 // Generation
 
@@ -1617,6 +1768,83 @@ fn generate(rng: &mut Rng, tier: &str, w: &mut CaseWriter) {
         let r = gen_bed(rng, typed);
         w.push(if typed { "bedt" } else { "bed" }, bed_args(&r));
     }
+
+    // multi-line files read with one reused record / line object
+    for n in 3..=6usize {
+        // extra-column counts per line: BEDn+k followed (later) by a plain BEDn line is the
+        // pattern that exposes stale bounds in a reused Record
+        let mut patterns: Vec<Vec<usize>> = vec![
+            vec![0, 2, 0],
+            vec![3, 0],
+            vec![12 - n, 0, 1, 0],
+            vec![1, 1, 0, 0, 9, 2, 0],
+            vec![0, 0],
+            vec![5, 3, 1, 0],
+        ];
+        for _ in 0..(6 * scale) {
+            let len = rng.range(2, 8) as usize;
+            patterns.push((0..len).map(|_| if rng.chance(1, 2) { 0 } else { rng.below(10) as usize }).collect());
+        }
+        for pat in patterns {
+            let mut args = vec![n.to_string()];
+            for k in pat {
+                let r = gen_bed_valid(rng, n, k);
+                args.push(bed_args(&r)[1..].join(" "));
+            }
+            w.push("bedfile", args);
+        }
+    }
+    for i in 0..(12 * scale) {
+        let len = rng.range(2, 7);
+        let mut args = Vec::new();
+        for _ in 0..len {
+            let mut r = gen_gff(rng, 0);
+            if r.ty == b"CDS" && r.phase == '.' {
+                r.phase = '0';
+            }
+            if i % 3 == 0 && rng.chance(1, 2) {
+                r.attrs.clear();
+            }
+            args.push(rec_args(&r).join(" "));
+        }
+        w.push("gfffile", args);
+    }
+    for i in 0..(12 * scale) {
+        let len = rng.range(2, 7);
+        let mut args = Vec::new();
+        for _ in 0..len {
+            let mut r = gen_gtf(rng, i % 2 == 0);
+            if r.strand == '?' {
+                r.strand = '.';
+            }
+            if rng.chance(1, 4) {
+                r.attrs.clear();
+            }
+            args.push(rec_args(&r).join(" "));
+        }
+        w.push("gtffile", args);
+    }
+}
+
+fn gen_bed_valid(rng: &mut Rng, n: usize, k: usize) -> BedRec {
+    let printable: Vec<u8> = (0x20u8..=0x7e).collect();
+    let start = rng.range(1, 250_000_000);
+    BedRec {
+        n,
+        name: gen_plain(rng, 1, 8, b"abcdefghijklmnopqrstuvwxyzABCDEFGHIJKLMNOPQRSTUVWXYZ0123456789_"),
+        start,
+        end: if rng.chance(1, 8) { None } else { Some(start + rng.below(1000)) },
+        nm: if rng.chance(1, 6) { None } else { Some(gen_plain(rng, 1, 8, &printable)) },
+        score: *rng.pick(&[0u16, 1, 10, 999, 1000, 65535]),
+        strand: *rng.pick(&['.', '+', '-']),
+        others: (0..k)
+            .map(|_| match rng.below(6) {
+                0 => Other::S(Vec::new()),
+                1 => Other::S(b".".to_vec()),
+                _ => Other::S(gen_plain(rng, 0, 8, &printable)),
+            })
+            .collect(),
+    }
 }
 
 fn run(c: &Case) -> Obs {
@@ -1628,6 +1856,9 @@ fn run(c: &Case) -> Obs {
         "gtf" => run_gtf(c),
         "bed" => run_bed(c, true),
         "bedt" => run_bed(c, false),
+        "bedfile" => run_bedfile(c),
+        "gfffile" => run_gfffile(c),
+        "gtffile" => run_gtffile(c),
         k => panic!("unknown kind {k}"),
     }
 }
